@@ -31,6 +31,9 @@ type inboundParams struct {
 	// PLoseSession: the broker forgets the session at a connection loss (not
 	// for C04, whose messages must all arrive)
 	PLoseSession float64
+	// PViolate: instead of a plain loss the broker ends a connection with a
+	// PUBLISH under the packet identifier zero
+	PViolate float64
 }
 
 type inMsg struct {
@@ -60,6 +63,7 @@ type inboundRun struct {
 	bigCuts  int
 	viol     bool
 
+	violations    int
 	sessionsLost  int
 	sessionLostAt []int64
 }
@@ -228,6 +232,12 @@ func runInbound(c *run.Ctx, ip inboundParams) *inboundRun {
 		case r < 0.75+ip.PCompete+ip.PBreak:
 			if cn := w.CurConn(); cn != nil {
 				ir.breaks++
+				if c.Rng.Float64() < ip.PViolate {
+					// not a plain loss but a violation: a PUBLISH under the reserved identifier
+					// zero ends the connection; nothing of it may get acknowledged
+					cn.Send(wire.Publish("bad/id/zero", []byte("never delivered"), byte(1+c.Rng.Intn(2)), 0, false, false), "PUBLISH with identifier zero")
+					ir.violations++
+				}
 				if c.Rng.Intn(2) == 0 {
 					cn.EndInbound(-1, io.EOF)
 				} else {
@@ -639,7 +649,7 @@ func init() {
 		Rule:        "each case is a PRNG step script over a harness-controlled read loop (every ReadSlices invocation is granted explicitly): the reference broker sends messages at the three levels (some beyond the read buffer), the application pauses after each return while 0-3 concurrent outbound requests (Publish, Ping, Subscribe, persisted publish) use the connection, the connection is broken (in the at-least-once-only scripts the broker forgets its session at 3 in 10 of the losses), the acknowledgement's own write is accepted and lost, the client is restarted on the same Persistence. Oracle: each PUBACK/PUBREC on any connection follows a return of that identifier AND the next ReadSlices invocation after it; every returned QoS 1/2 message is acknowledged on some connection by idle. Non-trivial: a pause (return followed by a later invocation) with the acknowledgement observed after it; distinct by counts of competing requests, breaks, lost acknowledgements, restarts, big messages.",
 		Assumptions: []string{"'took ownership' is the invocation of the next ReadSlices in a running process", "acknowledgement times are the logical time of the first byte accepted by the connection"},
 		Run: func(c *run.Ctx) {
-			ip := inboundParams{Steps: 10 + c.Rng.Intn(50), Levels: [][]byte{{1}, {2}, {0, 1, 2}, {1, 2}}[c.Rng.Intn(4)], PBig: 0.1, PCompete: 0.08, PBreak: 0.04, PLostAck: 0.03, PRestart: 0.02, PStoreErr: 0.01, PReuse: 0.5}
+			ip := inboundParams{Steps: 10 + c.Rng.Intn(50), Levels: [][]byte{{1}, {2}, {0, 1, 2}, {1, 2}}[c.Rng.Intn(4)], PBig: 0.1, PCompete: 0.08, PBreak: 0.04, PLostAck: 0.03, PRestart: 0.02, PStoreErr: 0.01, PReuse: 0.5, PViolate: 0.3}
 			if len(ip.Levels) == 1 && ip.Levels[0] == 1 {
 				// (with exactly-once traffic a forgotten session leaves markers behind
 				// that meet the identifiers the broker hands out anew: outside C07)
@@ -664,6 +674,7 @@ func init() {
 			c.Count("acknowledgements_lost", ir.lostAcks)
 			c.Count("restarts", ir.restarts)
 			c.Count("sessions_lost_by_broker", ir.sessionsLost)
+			c.Count("connections_ended_by_a_publish_with_identifier_zero", ir.violations)
 			if pauses > 0 && ir.competed+ir.breaks+ir.lostAcks+ir.restarts > 0 {
 				c.Trigger(fmt.Sprintf("compete=%d|break=%d|lost=%d|restart=%d|buf=%d", min(ir.competed, 3), min(ir.breaks, 3), min(ir.lostAcks, 2), min(ir.restarts, 2), ip.BufSize))
 			}
